@@ -77,6 +77,10 @@ def binop(interp, st, op, a, b):
             else:
                 interp.oblige(st, 'arith.divisor_positive', zb > 0, tag='helper')
             yield st, SV(INT, (za / zb) if isinstance(op, ast.FloorDiv) else (za % zb))
+        elif isinstance(op, ast.BitAnd) and isinstance(b, int) and b < 0 and (-b) & (-b - 1) == 0 and not real:
+            # x & -(2**k) on a non-negative integer: clear the low k bits
+            interp.oblige(st, 'arith.bitand_operand_nonneg', za >= 0, tag='helper')
+            yield st, SV(INT, za - za % (-b))
         elif isinstance(op, ast.Pow):
             if isinstance(b, int) and b >= 0 and b <= 4:
                 r = z3.IntVal(1) if ty == INT else z3.RealVal(1)
@@ -632,6 +636,26 @@ def getslice(interp, st, v, lo, hi, step):
     if is_strlike(v):
         k = kind_of(v)
         z = lift(v, k).z
+        if (lo is None) != (hi is None):
+            # prefix / suffix slices: z = pre ++ suf with |pre| = clamp(index); the decomposition is
+            # shared between x[:p] and x[p:] of the same value (helps the string solvers a lot)
+            idx = hi if lo is None else lo
+            zi = lift(idx, INT).z
+            n = z3.Length(z)
+            cut = z3.If(zi < 0, z3.If(zi + n < 0, 0, zi + n), z3.If(zi > n, n, zi))
+            cache = st.ghost.setdefault('$split', {})
+            cache = dict(cache)
+            key = (z.get_id(), zi.get_id())
+            if key not in cache:
+                pre = z3.Const(sym.fresh_name('pre'), z3.StringSort())
+                suf = z3.Const(sym.fresh_name('suf'), z3.StringSort())
+                st.assume(z == z3.Concat(pre, suf))
+                st.assume(z3.Length(pre) == cut)
+                cache[key] = (pre, suf)
+                st.ghost['$split'] = cache
+            pre, suf = cache[key]
+            yield st, SV(k, pre if lo is None else suf)
+            return
         s, ln = clamp_slice(lo, hi, z3.Length(z))
         yield st, SV(k, z3.SubString(z, s, ln))
         return
@@ -721,6 +745,12 @@ def delete(interp, st, target):
                     hi = next(it) if sl.upper is not None else None
                     if isinstance(o, SV) and hasattr(o.ty, 'delslice'):
                         yield from o.ty.delslice(interp, s2, o, lo, hi)
+                    elif is_strlike(o) and kind_of(o) == BYTES and isinstance(target.value, ast.Name) and lo is None:
+                        # `del buf[:n]` on a bytearray held in a local: buf becomes buf[n:]
+                        # (bytearrays are modelled as values; no alias of the buffer exists in the unit)
+                        for s3, rest in getslice(interp, s2, o, hi, None, None):
+                            s3.assign(target.value.id, rest)
+                            yield s3, ('normal',)
                     else:
                         raise Unsupported(f'del slice on {o!r}')
                 continue
